@@ -185,6 +185,16 @@ func (u *Unit) define(prefix, sort, term string) string {
 	return n
 }
 
+// defineAtom introduces a constant equal to term (an atomic symbol, usable inside patterns).
+func (u *Unit) defineAtom(prefix, sort, term string) string {
+	if len(term) < 40 && !strings.Contains(term, "(") {
+		return term
+	}
+	n := u.freshConst(prefix, sort)
+	u.emit(fmt.Sprintf("(assert (= %s %s))", n, term))
+	return n
+}
+
 func (u *Unit) assume(term string) {
 	if term == "true" {
 		return
